@@ -11,6 +11,7 @@ import (
 
 	"gopkg.in/yaml.v2"
 
+	"github.com/oneconcern/datamon/pkg/core"
 	"github.com/oneconcern/datamon/pkg/model"
 
 	"verifharness/coreh"
@@ -41,15 +42,17 @@ type opSpec struct {
 }
 
 type params struct {
-	Mode    string   `json:"mode"` // gate1 | gate2 | crash | stress
-	Pre     []string `json:"pre_completed_splits"`
-	A, B    opSpec
-	I, J    int      `json:"-"`
-	Late    []opSpec `json:"late_ops"`
-	Stress  []opSpec `json:"stress_ops,omitempty"`
-	Seed    int64    `json:"seed"`
-	MaxI    int      `json:"max_i"` // gate positions are enumerated inside the case, up to MaxI (0 = all)
-	SampleJ int      `json:"sample_j"`
+	Mode   string   `json:"mode"` // gate1 | gate2 | crash | stress
+	Pre    []string `json:"pre_completed_splits"`
+	A, B   opSpec
+	I, J   int      `json:"-"`
+	Late   []opSpec `json:"late_ops"`
+	Stress []opSpec `json:"stress_ops,omitempty"`
+	Seed   int64    `json:"seed"`
+	MaxI   int      `json:"max_i"` // gate positions are enumerated inside the case, up to MaxI (0 = all)
+	// Batch > 0: commits list the splits with this page size
+	Batch   int `json:"commit_listing_batch_size,omitempty"`
+	SampleJ int `json:"sample_j"`
 }
 
 func gen12(seed int64, tier string) []drv.Case {
@@ -57,6 +60,9 @@ func gen12(seed int64, tier string) []drv.Case {
 	var cs []drv.Case
 	add := func(class string, p params) {
 		p.Seed = r.Int63()
+		if len(cs)%3 == 1 {
+			p.Batch = []int{1, 2, 3, 5}[r.Intn(4)]
+		}
 		cs = append(cs, drv.Case{ID: fmt.Sprintf("%s-%d", class, len(cs)), Class: class, Params: drv.MustJSON(p)})
 	}
 	commit := opSpec{Op: "commit"}
@@ -195,7 +201,11 @@ func (s *scenario) start(spec opSpec, name string, prep func(a *memstore.Actor))
 		defer close(c.done)
 		switch spec.Op {
 		case "commit":
-			d, err := env.Commit(c.actor, "r", s.diamond, model.IgnoreConflicts)
+			var copts []core.Option
+			if s.p.Batch > 0 {
+				copts = append(copts, core.BatchSize(s.p.Batch))
+			}
+			d, err := env.Commit(c.actor, "r", s.diamond, model.IgnoreConflicts, copts...)
 			if d != nil {
 				c.bundle = d.BundleID
 			}
